@@ -11,6 +11,7 @@ import (
 
 	sdkmath "cosmossdk.io/math"
 	sdk "github.com/cosmos/cosmos-sdk/types"
+	authtypes "github.com/cosmos/cosmos-sdk/x/auth/types"
 	banktypes "github.com/cosmos/cosmos-sdk/x/bank/types"
 	stakingkeeper "github.com/cosmos/cosmos-sdk/x/staking/keeper"
 	stakingtypes "github.com/cosmos/cosmos-sdk/x/staking/types"
@@ -42,6 +43,16 @@ type genTx struct {
 	stake  *stakePre
 	plan   *destroyPlan
 	deploy bool // carries MsgDeployErc20ContractRequest
+	create bool // an Ethereum transaction without recipient
+	apply  *applyPre
+}
+
+// an Ethereum transaction whose sender owns exactly fee + base when the block begins: the state transition is refused
+// (core error: insufficient funds for transfer) iff value > base; a CApply case
+type applyPre struct {
+	bal0, fee, value *big.Int
+	create           bool
+	variant          string
 }
 
 var mixedKinds = []string{"transfer", "transfer-fresh", "call-sink", "call-revert", "call-invalid", "call-logger", "store-set", "store-clear",
@@ -164,23 +175,60 @@ func (w *world) genMixed(r *Rng) *genTx {
 	g := &genTx{Kind: kind, Mal: mal, Sender: from.Hex()}
 
 	if kind == "cosmos-send" || kind == "cosmos-delegate" {
-		g.Mal = "none"
+		// Cosmos failures of every stage: ante (sequence, fee), message execution (funds, unknown validator, blocked recipient), gas
+		cm := "none"
+		if r.Chance(35) {
+			cm = []string{"amount-above-balance", "bad-target", "stale-sequence", "fee-below-floor", "gas-too-low"}[r.Intn(5)]
+		}
 		var msg sdk.Msg
 		if kind == "cosmos-send" {
-			to := w.senders[r.Intn(len(w.senders))]
-			msg = banktypes.NewMsgSend(sender.GetCosmosAddress(), to.GetCosmosAddress(), sdk.NewCoins(sdk.NewCoin("utwo", sdkmath.NewInt(int64(1+r.Intn(1000))))))
+			to := w.senders[r.Intn(len(w.senders))].GetCosmosAddress()
+			amt := sdkmath.NewInt(int64(1 + r.Intn(1000)))
+			switch cm {
+			case "amount-above-balance":
+				// (more than anything an earlier transaction of the same block could add)
+				amt = sdkmath.NewIntFromBigInt(Badd(c.Bal(q, sender.GetCosmosAddress(), "utwo"), 1_000_000))
+			case "bad-target":
+				to = authtypes.NewModuleAddress(authtypes.FeeCollectorName) // a blocked address
+			}
+			msg = banktypes.NewMsgSend(sender.GetCosmosAddress(), to, sdk.NewCoins(sdk.NewCoin("utwo", amt)))
 		} else {
-			v := w.vals[r.Intn(len(w.vals))]
-			msg = stakingtypes.NewMsgDelegate(sender.GetCosmosAddress().String(), v.op, sdk.NewCoin(w.bond, sdkmath.NewIntFromBigInt(e18(int64(1+r.Intn(3))))))
+			v := w.vals[r.Intn(len(w.vals))].op
+			amt := e18(int64(1 + r.Intn(3)))
+			switch cm {
+			case "amount-above-balance":
+				amt = new(big.Int).Add(c.Bal(q, sender.GetCosmosAddress(), w.bond), e18(10))
+			case "bad-target":
+				v = sdk.ValAddress(w.senders[r.Intn(len(w.senders))].GetCosmosAddress()).String() // no such validator
+			}
+			msg = stakingtypes.NewMsgDelegate(sender.GetCosmosAddress().String(), v, sdk.NewCoin(w.bond, sdkmath.NewIntFromBigInt(amt)))
 		}
 		price := new(big.Int).Mul(Badd(floor, 1), big.NewInt(2))
+		gasLimit := uint64(400000)
 		// signed against the leader's own state (the reference suite's keepers belong to another app instance)
 		accNum, seq := c.AccNumSeq(sender.GetCosmosAddress())
-		rt := &RawTx{Msgs: []sdk.Msg{msg}, Fee: c.FeeCoins(new(big.Int).Mul(price, big.NewInt(400000))), Gas: 400000}
+		switch cm {
+		case "stale-sequence":
+			if seq == 0 {
+				seq = 5
+			} else {
+				seq--
+			}
+		case "fee-below-floor":
+			if floor.Sign() > 0 {
+				price = Bsub(floor, 1)
+			} else {
+				cm = "none"
+			}
+		case "gas-too-low":
+			gasLimit = uint64(30000 + r.Intn(40000))
+		}
+		g.Mal = cm
+		rt := &RawTx{Msgs: []sdk.Msg{msg}, Fee: c.FeeCoins(new(big.Int).Mul(price, new(big.Int).SetUint64(gasLimit))), Gas: gasLimit}
 		require.NoError(w.t, rt.SignDirect(c.ChainID(), sender, accNum, seq))
 		bz, err := rt.Encode()
 		require.NoError(w.t, err)
-		g.raw, g.Gas = bz, 400000
+		g.raw, g.Gas = bz, gasLimit
 		return g
 	}
 
@@ -291,10 +339,101 @@ func (w *world) genMixed(r *Rng) *genTx {
 		value = new(big.Int).Add(c.EvmBal(q, from), big.NewInt(1))
 	}
 	g.raw = w.ethRaw(sender, chainID, nonce, to, value, data, gas, f, r)
+	g.create = to == nil
 	g.isEth, g.Gas, g.Dyn, g.price, g.tip = true, gas, f.dyn, f.price, f.tip
 	g.Price, g.Tip = f.price.String(), f.tip.String()
 	g.floor = mal == "none" || mal == "price-below-floor"
 	return g
+}
+
+// ---------------------------------------------------------------- state transitions refused by the core (ApplyTransaction returns an error)
+
+// genApplyError: the first transaction of its block, by a fresh account that every replica funds (between blocks) with
+// exactly gas x price + base.  The ante handler in deliver mode takes the fee and lets the transaction pass (the
+// simulation that would refuse it runs in CheckTx only); TransitionDb refuses it iff value > base.  Values sit on
+// both sides of the boundary, for calls, plain transfers and creations.
+func (w *world) genApplyError(r *Rng) *genTx {
+	w.nextPauper++
+	acc := w.ref.DetAccount("twin-pauper", w.nextPauper)
+	from := acc.GetEthAddress()
+	_, _, floor := w.floorNow()
+	price := new(big.Int).Mul(Badd(floor, 1), big.NewInt(int64(2+r.Intn(3))))
+	var to *common.Address
+	var data []byte
+	gas := uint64(21000)
+	kind := "apply-transfer"
+	switch r.Intn(3) {
+	case 0:
+		a := w.senders[r.Intn(len(w.senders))].GetEthAddress()
+		to = &a
+	case 1:
+		to, gas, kind = &w.sink, 40000, "apply-call"
+	default:
+		data, kind = InitCode(rtSink), "apply-create"
+		intr, err := core.IntrinsicGas(data, nil, true, true, true)
+		require.NoError(w.t, err)
+		gas = intr + 60000
+	}
+	fee := new(big.Int).Mul(price, new(big.Int).SetUint64(gas))
+	base := []*big.Int{big.NewInt(0), big.NewInt(1), big.NewInt(1000), r.BigBits(60), e18(1)}[r.Intn(5)]
+	var value *big.Int
+	variant := ""
+	switch r.Intn(7) {
+	case 0:
+		value, variant = Bsub(base, 1), "base-1"
+	case 1:
+		value, variant = new(big.Int).Set(base), "base"
+	case 2, 3:
+		value, variant = Badd(base, 1), "base+1"
+	case 4:
+		value, variant = new(big.Int).Add(base, fee), "base+fee"
+	case 5:
+		value, variant = new(big.Int).Lsh(big.NewInt(1), 200), "huge"
+	default:
+		value, variant = new(big.Int).Add(base, r.BigBits(40)), "base+random"
+	}
+	if value.Sign() < 0 {
+		value, variant = big.NewInt(0), "zero"
+	}
+	bal0 := new(big.Int).Add(fee, base)
+	w.each(func(c *Chain) {
+		placeAccount(c, from, 0)
+		if bal0.Sign() > 0 {
+			c.Fund(acc.GetCosmosAddress(), w.bond, bal0)
+		}
+	})
+	f := feeSpec{dyn: false, price: price, tip: big.NewInt(0)}
+	g := &genTx{Kind: kind, Mal: variant, Sender: from.Hex(), Gas: gas, isEth: true, create: to == nil, Price: price.String(), Tip: "0",
+		apply: &applyPre{bal0: bal0, fee: fee, value: value, create: to == nil, variant: variant}}
+	td := &ethtypes.LegacyTx{Nonce: 0, GasPrice: f.price, Gas: gas, To: to, Value: value, Data: data}
+	bz, _, err := w.lead.EthTxBytes(acc, td)
+	require.NoError(w.t, err)
+	g.raw = bz
+	return g
+}
+
+// genGasHogs: transactions that burn their whole (large) gas limit, together more than the block's gas limit: the later
+// ones run into the block gas meter, whatever follows finds no block gas left
+func (w *world) genGasHogs(r *Rng) []*genTx {
+	maxGas := w.lead.App.BaseApp.GetConsensusParams(w.lead.QueryCtx()).Block.MaxGas
+	if maxGas <= 0 {
+		return nil
+	}
+	per := uint64(maxGas)/3 + 1_000_000
+	var out []*genTx
+	for i, m := 0, 3+r.Intn(2); i < m; i++ {
+		s := w.pickSender(r)
+		if s == nil {
+			break
+		}
+		_, _, floor := w.floorNow()
+		f := feeSpec{dyn: r.Bool(), price: new(big.Int).Mul(Badd(floor, 1), big.NewInt(2)), tip: big.NewInt(0)}
+		from := s.GetEthAddress()
+		g := &genTx{Kind: "gas-hog", Mal: "none", Sender: from.Hex(), Gas: per, isEth: true, Dyn: f.dyn, Price: f.price.String(), Tip: "0"}
+		g.raw = w.ethRaw(s, w.chainID, w.lead.Nonce(w.lead.QueryCtx(), from), &w.invalid, big.NewInt(0), nil, per, f, r)
+		out = append(out, g)
+	}
+	return out
 }
 
 // ---------------------------------------------------------------- staking precompile transfer()
@@ -421,6 +560,9 @@ func (w *world) equaliseLowest(r *Rng, caller common.Address) bool {
 	}
 	sort.Slice(mine, func(i, j int) bool { return mine[i].tokens.Cmp(mine[j].tokens) < 0 })
 	diff := new(big.Int).Sub(mine[1].tokens, mine[0].tokens)
+	if diff.Cmp(e18(200)) > 0 {
+		return false // not worth the helper's funds
+	}
 	if diff.Sign() > 0 {
 		helper := w.senders[0]
 		w.each(func(rc *Chain) {
